@@ -343,7 +343,8 @@ def work_bench(args):
             if not close(gb, beta, rel=1e-7, abs_=1e-9):
                 part.violation("C20|alpha_beta|beta", "beta != cov(r_p, r_b)/var(r_b)",
                                {"fn": "alpha_beta", "series": fa, "benchmark": fb}, {"got": gb, "expected": beta})
-            elif math.isfinite(alpha) and not close(ga, alpha, rel=1e-6, abs_=1e-6 * max(1.0, abs(apy_a), abs(beta * apy_b))):
+            # (beta is compared to 1e-9 absolute: alpha = apy_p - beta x apy_b inherits that times the benchmark's annualised return, which can be astronomic on a 4-day toy series)
+            elif math.isfinite(alpha) and not close(ga, alpha, rel=1e-6, abs_=1e-6 * max(1.0, abs(apy_a), abs(beta * apy_b)) + 1e-9 * abs(apy_b)):
                 part.violation("C20|alpha_beta|alpha", "alpha != apy_p - beta*apy_b",
                                {"fn": "alpha_beta", "series": fa, "benchmark": fb}, {"got": ga, "expected": alpha})
             # the benchmark is a series of the same length; how it is labelled (bars stamped at close time, a plain range) does not enter the definition
@@ -351,7 +352,7 @@ def work_bench(args):
                 with np.errstate(all="ignore"):
                     ga2, gb2 = calc.alpha_beta(sa, other, dur)
                 part.count("evaluations")
-                if not close(gb2, beta, rel=1e-7, abs_=1e-9) or (math.isfinite(alpha) and not close(ga2, alpha, rel=1e-6, abs_=1e-6 * max(1.0, abs(apy_a), abs(beta * apy_b)))):
+                if not close(gb2, beta, rel=1e-7, abs_=1e-9) or (math.isfinite(alpha) and not close(ga2, alpha, rel=1e-6, abs_=1e-6 * max(1.0, abs(apy_a), abs(beta * apy_b)) + 1e-9 * abs(apy_b))):
                     part.violation(f"C20|alpha_beta|benchmark-labels|{lab}", "alpha / beta change when the benchmark series carries other index labels", 
                                    {"fn": "alpha_beta", "series": fa, "benchmark": fb, "labels": lab}, {"got": [ga2, gb2], "expected": [alpha, beta]})
                     break
